@@ -103,6 +103,8 @@ pub struct Obs {
     pub process_result: Option<String>,
     pub output_file: Option<Vec<u8>>,
     pub finished: bool,
+    /// scheduler id of the stop flag (to tell its stores from those to the any-errors flag)
+    pub stop_flag_id: Option<usize>,
 }
 
 fn process_dyn(
@@ -135,6 +137,7 @@ pub fn run(scn: &Scn, cfg: &'static MockConfig, policy: Policy) -> (ExecResult, 
     let res = run_execution(policy, move || {
         // what init::run() does, minus argument parsing and the OS signal plumbing
         let (controller, stat_send, stop_flag, any_errors) = fastpasta::controller::init_controller(cfg);
+        obs2.lock().unwrap().stop_flag_id = stop_flag.verif_id();
         let sig = if signal {
             let f = stop_flag.clone();
             Some(fp_sched::std_shim::thread::Builder::new().name("Signal".into()).spawn(move || f.store(true, Ordering::SeqCst)).unwrap())
